@@ -142,7 +142,7 @@ def write_replay(prop, rec):
     rec.setdefault("repo_head", repo_head())
     body = json.dumps({k: rec[k] for k in rec if k not in ("repo_head",)}, sort_keys=True)
     sha = hashlib.sha1(body.encode()).hexdigest()[:8]
-    path = os.path.join(VERIF, "replays", f"{prop}-{sha}.json")
+    path = os.path.join(os.environ.get("VERIF_REPLAY_DIR") or os.path.join(VERIF, "replays"), f"{prop}-{sha}.json")
     os.makedirs(os.path.dirname(path), exist_ok=True)
     with open(path, "w") as f:
         json.dump(rec, f, indent=1, sort_keys=True)
@@ -169,7 +169,7 @@ def write_evidence(prop, level, tier, seed, cov, wall, nviol, assumptions, extra
     }
     if extra:
         ev.update(jsonable(extra))
-    path = os.path.join(VERIF, "evidence", f"{prop}.json")
+    path = os.path.join(os.environ.get("VERIF_EVIDENCE_DIR") or os.path.join(VERIF, "evidence"), f"{prop}.json")
     os.makedirs(os.path.dirname(path), exist_ok=True)
     tmp = path + ".tmp"
     with open(tmp, "w") as f:
